@@ -543,8 +543,15 @@ impl<F: Write + Seek> Directory<F> {
     where
         W: FnOnce(&mut DirEntry),
     {
+        let old_dir_entry = self.dir_entries[stream_id as usize].clone();
         func(&mut self.dir_entries[stream_id as usize]);
-        self.write_dir_entry(stream_id)
+        let result = self.write_dir_entry(stream_id);
+        if result.is_err() {
+            // Keep the in-memory entry in step with the file, so that a retry
+            // of the caller sees the change as still to be made.
+            self.dir_entries[stream_id as usize] = old_dir_entry;
+        }
+        result
     }
 
     /// Calls the given function with a mutable reference to the root directory
